@@ -153,9 +153,14 @@ func vPredef(cid string, nc, nw, nameLen int) (topics.PredefinedTopics, []vEntry
 // in the legal range) and symbolic names into the handler.
 func vRegistry(h *handler1, nr, nameLen int) []vEntry {
 	var re []vEntry
+	// the ID counter is in a state consistent with the registrations made so far:
+	// Fresh(n) = (next = n, not wrapped), every registered ID < n
+	n := vNondetU16("seq_next")
+	vAssume(vAnd(n >= snPkts.MinTopicAlias, n <= snPkts.MaxTopicAlias))
+	h.topicID = util.VSeqState(snPkts.MinTopicAlias, snPkts.MaxTopicAlias, n, false)
 	for i := 0; i < nr; i++ {
 		e := vEntry{vNondetU16("reg_id"), vNondetString("reg_name", nameLen)}
-		vAssume(vAnd(e.id >= snPkts.MinTopicAlias, e.id <= snPkts.MaxTopicAlias))
+		vAssume(vAnd(e.id >= snPkts.MinTopicAlias, e.id < n))
 		for _, o := range re {
 			vAssume(o.id != e.id)
 		}
